@@ -1423,7 +1423,11 @@ class Parser:
         directives = self.parse_directives(True)
         fields = self.parse_input_fields_definition()
         if (not directives) and (not fields):
-            raise UnexpectedToken("", start.start, self._lexer._source)
+            raise UnexpectedToken(
+                "Expected directives or input fields in input object extension",
+                start.start,
+                self._lexer._source,
+            )
 
         return _ast.InputObjectTypeExtension(
             name=name,
